@@ -257,6 +257,11 @@ func c03Gen(g *hx.Gen) {
 				for _, q := range c03Queries[3:] {
 					emit("GET", s.prefix+esc+tail+q, "", "")
 					emit("GET", s.prefix+esc+tail+q, "", "bob:pw")
+					if gzipSite && e.isDir {
+						// the gzip directive compresses the archive itself for a client that accepts gzip
+						emit("GET", s.prefix+esc+tail+q, "zstd, gzip", "")
+						emit("GET", s.prefix+esc+tail+q, "gzip", "bob:pw")
+					}
 				}
 				for _, m := range []string{"HEAD", "POST", "OPTIONS"} {
 					emit(m, s.prefix+esc+tail, "gzip", "")
